@@ -196,7 +196,9 @@ def run(ctx):
                     p = GL.channel_eflr(chans) if rng.random() < 0.5 else GL.simple_eflr(b'PARAMETER', [(b'VALUES', 2, None, None)], [((1, 0, b'P1'), [[1.5]])])
                     typ = 3 if p.startswith(GL.set_component(b'CHANNEL')) else 5
                 else:
-                    p, typ = GL.simple_eflr(b'TOOL', [(b'DESCRIPTION', 20, None, None)], [((1, 0, b'T%d' % len(recs)), [[b'tool']])]), 5
+                    # (now and then a table too long for one visible record, so that visible records of the maximum length occur)
+                    descr = b'tool' if rng.random() < 0.85 else bytes(65 + (i_ * 7) % 26 for i_ in range(17000))
+                    p, typ = GL.simple_eflr(b'TOOL', [(b'DESCRIPTION', 20, None, None)], [((1, 0, b'T%d' % len(recs)), [[descr]])]), 5
                 kind, enc = 'E', False
             elif k == 'IF':
                 p, typ, kind, enc = b'', 0, 'I', False       # an empty IFLR body is skipped by the indexer
@@ -207,11 +209,14 @@ def run(ctx):
                 p, typ, kind, enc = bytes(rng.randrange(256) for _ in range(rng.choice([12, 30]))), 0, 'I', True
             recs.append(dict(kind=kind, type=typ, len=len(p), enc=enc))
             payloads.append(p)
-        vm = rng.choice([128, 1024, 8192])
+        vm = rng.choice([128, 1024, 8192, 16384])
+        big_ = any(r_['len'] > 16000 for r_ in recs)
+        if big_:
+            vm = 16384
         for rec in recs:
             if rec['enc'] and not GD.enc_len_ok(rec['len'], vm - 8):
                 rec['enc'] = False
-        lay = GD.random_layout(rng, recs, vm)
+        lay = GD.random_layout(rng, recs, vm, style='fill' if big_ else None)
         data = GD.render(recs, lay, sul=GD.render_sul(1, vm), payloads=payloads).data
         case = dict(kinds=kinds)
         ctx.case(('logical', nseq), kinds.count('FH') > 1 or 'XE' in kinds or 'XI' in kinds)
